@@ -262,7 +262,8 @@ def reassign_leaf_units(rng, desc, p=0.5):
 def build_species(strengths, s):
     U = strengths.units
     if s.get("built_in"):
-        first = dict(s, units=s["built_in"])
+        # (a bare number put into the description after the re-assignment was recorded reads in the current units, as the models read it)
+        first = dict(s, units=s["built_in"], D=_explicit_env(s["D"], s["units"]), dens=_explicit_env(s["dens"], s["units"]))
         del first["built_in"]
         sp = build_species(strengths, first)
         sp.units_system = py_sys(U, s["units"])
@@ -295,6 +296,8 @@ def build_space(strengths, sp):
     U = strengths.units
     if sp.get("built_in"):
         first = dict(sp, units=sp["built_in"])
+        if sp["type"] == "grid":
+            first["vol"] = _explicit_in(sp["vol"], sp["units"])
         del first["built_in"]
         space = build_space(strengths, first)
         space.units_system = py_sys(U, sp["units"])
@@ -316,7 +319,7 @@ def build_space(strengths, sp):
 def build_reaction(strengths, r):
     U = strengths.units
     if r.get("built_in"):
-        first = dict(r, units=r["built_in"])
+        first = dict(r, units=r["built_in"], kf=_explicit_env(r["kf"], r["units"]), kr=_explicit_env(r["kr"], r["units"]))
         del first["built_in"]
         re_ = build_reaction(strengths, first)
         re_.units_system = py_sys(U, r["units"])
